@@ -242,3 +242,368 @@ Proof.
   unfold coarsen_c, coarsen_cooler. unfold c_bins, c_sizes, c_px in *. cbn [fst snd] in *. rewrite Eb, Es.
   rewrite (coarsen_chunk_independent blocks (snd c) k cs1 bs1 cs2 bs2) by (auto using inrange_rows). reflexivity.
 Qed.
+
+(* ================================================================ zoomify_cooler *)
+Lemma lookup_in {A} r (lv : list (Z * A)) c : lookup r lv = Some c -> In (r, c) lv.
+Proof.
+  induction lv as [|[r' c'] lv IH]; cbn [lookup]; [discriminate|].
+  destruct (r =? r') eqn:E; intros H.
+  - injection H as <-. apply Z.eqb_eq in E. subst. now left.
+  - right. now apply IH.
+Qed.
+
+Lemma lookup_key_in {A} r (lv : list (Z * A)) : In r (map fst lv) -> exists c, lookup r lv = Some c.
+Proof.
+  induction lv as [|[r' c'] lv IH]; cbn [map fst lookup In]; [intros []|].
+  destruct (r =? r') eqn:E; [eauto|]. intros [H|H]; [lia|now apply IH].
+Qed.
+
+Lemma lookup_cons_ne {A} r r' (c' : A) lv : r <> r' -> lookup r ((r', c') :: lv) = lookup r lv.
+Proof. intros H. cbn [lookup]. destruct (r =? r') eqn:E; [lia|reflexivity]. Qed.
+
+Lemma lookup_copied {A} (f : Z -> A) l r : In r l -> lookup r (map (fun b => (b, f b)) l) = Some (f r).
+Proof.
+  induction l as [|x l IH]; [intros []|]. cbn [map lookup].
+  destruct (r =? x) eqn:E; [apply Z.eqb_eq in E; now subst|]. intros [H|H]; [lia|now apply IH].
+Qed.
+
+(** [c] is what the property demands at resolution [r]: the copied base, or the DIRECT coarsening of a
+    base by the ratio of resolutions (for any chunk and batch size) *)
+Definition Direct (bases : list (Z * cooler)) (r : Z) (c : cooler) : Prop :=
+  (In r (map fst bases) /\ lookup r (base_dict bases) = Some c) \/
+  (~ In r (map fst bases) /\ exists b cb k, In b (map fst bases) /\ lookup b (base_dict bases) = Some cb /\ 2 <= k /\ r = b * k /\
+      forall cs bs, 1 <= cs -> 1 <= bs -> c = coarsen_c cb k cs bs).
+
+Section Zoomify.
+  Variable bases : list (Z * cooler).
+  Variable res : list Z.
+  Variables cs bs : Z.
+  Hypothesis Hcs : 1 <= cs.
+  Hypothesis Hbs : 1 <= bs.
+  Hypothesis Hres : Positive res.
+  Hypothesis Hbpos : Positive (map fst bases).
+  Hypothesis Hvalid : forall b c, In (b, c) bases -> ValidCooler c.
+  Let bres := map fst bases.
+  Let BD := base_dict bases.
+  Let base_of := fun b => match lookup b BD with Some c => c | None => ([], [], []) end.
+
+  Lemma base_lookup b : In b bres -> exists c, lookup b BD = Some c /\ ValidCooler c.
+  Proof.
+    intros Hb. assert (Hk : In b (map fst BD)).
+    { unfold BD, base_dict. rewrite map_rev. apply in_rev. rewrite rev_involutive. exact Hb. }
+    destruct (lookup_key_in b BD Hk) as [c Hc]. exists c. split; [exact Hc|].
+    apply lookup_in in Hc. unfold BD, base_dict in Hc. apply (proj2 (in_rev bases (b, c))) in Hc. eauto.
+  Qed.
+
+  Variables resn pred mult : list Z.
+  Hypothesis Hseq : get_multiplier_sequence res (Some bres) = Some (resn, pred, mult).
+
+  Let sound := multseq_sound res bres Hres Hbpos resn pred mult Hseq.
+
+  Lemma resn_eq : resn = np_unique (bres ++ res).
+  Proof. now destruct sound. Qed.
+
+  Lemma sound_resn : length pred = length resn /\ length mult = length resn /\
+    forall i, (i < length resn)%nat ->
+      (nth i pred 0 = -1 /\ nth i mult 0 = -1 /\ In (nth i resn 0) bres) \/
+      (0 <= nth i pred 0 < Z.of_nat i /\ 2 <= nth i mult 0 /\
+       nth (Z.to_nat (nth i pred 0)) resn 0 * nth i mult 0 = nth i resn 0).
+  Proof. destruct sound as (E & A & B & D). rewrite <- E in *. auto. Qed.
+
+  Lemma resn_nodup_nth i j : (i < length resn)%nat -> (j < length resn)%nat -> i <> j -> nth i resn 0 <> nth j resn 0.
+  Proof.
+    intros Hi Hj Hij. pose proof (np_unique_sorted (bres ++ res)) as HS. rewrite <- resn_eq in HS.
+    destruct (Nat.lt_trichotomy i j) as [H|[H|H]]; [|contradiction|].
+    - pose proof (sorted_lt_nth resn HS i j _ _ H (nth_error_nth' _ 0 Hi) (nth_error_nth' _ 0 Hj)). lia.
+    - pose proof (sorted_lt_nth resn HS j i _ _ H (nth_error_nth' _ 0 Hj) (nth_error_nth' _ 0 Hi)). lia.
+  Qed.
+
+  (** invariant of the Aggregate loop after the first n entries of resn *)
+  Definition ZInv (n : nat) (lv : list (Z * cooler)) : Prop :=
+    (forall b, In b bres -> lookup b lv = Some (base_of b)) /\
+    (forall i, (i < n)%nat -> (i < length resn)%nat -> exists c, lookup (nth i resn 0) lv = Some c /\ Direct bases (nth i resn 0) c /\ ValidCooler c) /\
+    NoDup (map fst lv) /\
+    (forall r, In r (map fst lv) -> In r bres \/ exists j, (j < n)%nat /\ (j < length resn)%nat /\ r = nth j resn 0).
+
+  Lemma zoom_step_inv n lv : (n < length resn)%nat -> ZInv n lv ->
+    exists lv', zoom_step resn pred mult bres cs bs (Some lv) n = Some lv' /\ ZInv (S n) lv'.
+  Proof.
+    intros Hn (IB & ID & IN & IK).
+    destruct sound_resn as (Lp & Lm & Hs). specialize (Hs n Hn).
+    unfold zoom_step.
+    assert (Hnth : nth n pred (-1) = nth n pred 0) by (apply nth_indep; lia). rewrite Hnth.
+    destruct Hs as [(Hp & Hm & Hb)|(Hp & Hm & Hprod)].
+    - (* a base: nothing written *)
+      rewrite Hp. cbn [Z.eqb orb]. replace (-1 =? -1) with true by reflexivity. cbn [orb].
+      exists lv. split; [reflexivity|]. split; [exact IB|]. split; [|split; [exact IN|]].
+      + intros i Hi Hil. destruct (Nat.eq_dec i n) as [->|Hne]; [|apply ID; lia].
+        destruct (base_lookup _ Hb) as (c & Hc & Vc). exists c.
+        split; [rewrite (IB _ Hb); unfold base_of; now rewrite Hc|]. split; [left; split; assumption|exact Vc].
+      + intros r Hr. destruct (IK r Hr) as [H|(j & Hj & Hjl & ->)]; [now left|right; exists j; split; [lia|auto]].
+    - destruct (memZ (nth n resn 0) bres) eqn:Em.
+      + (* D17: a base that is a multiple of another base is copied, not re-derived *)
+        rewrite Bool.orb_true_r. apply memZ_in in Em.
+        exists lv. split; [reflexivity|]. split; [exact IB|]. split; [|split; [exact IN|]].
+        * intros i Hi Hil. destruct (Nat.eq_dec i n) as [->|Hne]; [|apply ID; lia].
+          destruct (base_lookup _ Em) as (c & Hc & Vc). exists c.
+          split; [rewrite (IB _ Em); unfold base_of; now rewrite Hc|]. split; [left; split; assumption|exact Vc].
+        * intros r Hr. destruct (IK r Hr) as [H|(j & Hj & Hjl & ->)]; [now left|right; exists j; split; [lia|auto]].
+      + (* a derived level *)
+        assert (Hnb : ~ In (nth n resn 0) bres) by (intros X; apply memZ_in in X; congruence).
+        replace (nth n pred 0 =? -1) with false by lia. cbn [orb].
+        set (q := Z.to_nat (nth n pred 0)). assert (Hq : (q < n)%nat) by (unfold q; lia).
+        destruct (ID q Hq ltac:(lia)) as (cp & Hlp & Dp & Vp). rewrite Hlp.
+        assert (Hmnth : nth n mult 0 = nth n mult 0) by reflexivity.
+        eexists. split; [reflexivity|]. fold q in Hprod. rewrite Hprod.
+        set (m := nth n mult 0) in *.
+        assert (Hnew : forall r, In r (map fst lv) -> r <> nth n resn 0).
+        { intros r Hr E. destruct (IK r Hr) as [H|(j & Hj & Hjl & Ej)]; [subst; contradiction|].
+          apply (resn_nodup_nth n j Hn Hjl ltac:(lia)). congruence. }
+        split; [|split; [|split]].
+        * intros b Hb. rewrite lookup_cons_ne; [now apply IB|]. intros ->. contradiction.
+        * intros i Hi Hil. destruct (Nat.eq_dec i n) as [->|Hne].
+          -- exists (coarsen_c cp m cs bs). split; [cbn [lookup]; now rewrite Z.eqb_refl|].
+             split; [|apply coarsen_c_valid; auto; lia].
+             right. split; [exact Hnb|].
+             destruct Dp as [(Hb & Hl)|(_ & b & cb & k & Hb & Hl & Hk & Er & Hc)].
+             ++ exists (nth q resn 0), cp, m. split; [exact Hb|]. split; [exact Hl|]. split; [exact Hm|]. split; [lia|].
+                intros cs' bs' Hcs' Hbs'. apply coarsen_c_chunk_independent; auto; lia.
+             ++ destruct (base_lookup _ Hb) as (cb' & Hl' & Vcb). unfold BD in Hl'. rewrite Hl in Hl'. injection Hl' as <-.
+                exists b, cb, (k * m). split; [exact Hb|]. split; [exact Hl|]. split; [nia|]. split; [rewrite <- Hprod, Er; lia|].
+                intros cs' bs' Hcs' Hbs'. rewrite (Hc cs bs Hcs Hbs).
+                apply coarsen_c_compose; auto; lia.
+          -- destruct (ID i ltac:(lia) Hil) as (c & Hl & D & V). exists c. split; [|auto].
+             rewrite lookup_cons_ne; [exact Hl|]. apply resn_nodup_nth; auto.
+        * cbn [map fst]. constructor; [|exact IN]. intros X. now apply (Hnew _ X).
+        * cbn [map fst In]. intros r [<-|Hr]; [right; exists n; auto|].
+          destruct (IK r Hr) as [H|(j & Hj & Hjl & ->)]; [now left|right; exists j; split; [lia|auto]].
+  Qed.
+
+  Lemma zoom_fold_inv : forall m n lv, (n + m = length resn)%nat -> ZInv n lv ->
+    exists lv', fold_left (zoom_step resn pred mult bres cs bs) (seq n m) (Some lv) = Some lv' /\ ZInv (length resn) lv'.
+  Proof.
+    induction m as [|m IH]; intros n lv Hnm HI.
+    - exists lv. split; [reflexivity|]. replace (length resn) with n by lia. exact HI.
+    - cbn [seq fold_left]. destruct (zoom_step_inv n lv ltac:(lia) HI) as (lv1 & E & HI1).
+      rewrite E. apply IH; [lia|exact HI1].
+  Qed.
+End Zoomify.
+
+Lemma sorted_lt_nodup l : StronglySorted Z.lt l -> NoDup l.
+Proof.
+  induction 1 as [|a l HS IH Hall]; constructor; [|exact IH].
+  intros Hin. rewrite Forall_forall in Hall. specialize (Hall a Hin). lia.
+Qed.
+
+(** zoomify_cooler: every level of the file is the copied base or the DIRECT coarsening of a base by the
+    ratio of resolutions, whatever chain of intermediate levels produced it; each of the requested and base
+    resolutions is present exactly once; it refuses exactly the non-derivable requests *)
+Theorem zoom_level_eq_direct bases res cs bs :
+  1 <= cs -> 1 <= bs -> Positive res -> Positive (map fst bases) ->
+  (forall b c, In (b, c) bases -> ValidCooler c) ->
+  (forall lv, zoomify_cooler bases res cs bs = Some lv ->
+     Permutation (map fst lv) (np_unique (map fst bases ++ res)) /\ NoDup (map fst lv) /\
+     forall r c, lookup r lv = Some c -> Direct bases r c /\ ValidCooler c) /\
+  (zoomify_cooler bases res cs bs = None <->
+     exists r, In r res /\ forall b, In b (map fst bases) -> r mod b <> 0).
+Proof.
+  intros Hcs Hbs Hres Hbpos Hvalid.
+  pose proof (multseq_complete res (map fst bases) Hres Hbpos) as Hcomp.
+  unfold zoomify_cooler.
+  destruct (get_multiplier_sequence res (Some (map fst bases))) as [[[resn pred] mult]|] eqn:Hseq.
+  2:{ split; [intros lv H; discriminate|]. split; [intros _; now apply Hcomp|reflexivity]. }
+  set (copied := map (fun b => (b, match lookup b (base_dict bases) with Some c => c | None => ([], [], []) end))
+                     (np_unique (map fst bases))).
+  assert (Hkeys : map fst copied = np_unique (map fst bases)).
+  { unfold copied. rewrite map_map. cbn [fst]. apply map_id. }
+  assert (H0 : ZInv bases resn 0 copied).
+  { split; [|split; [|split]].
+    - intros b Hb. unfold copied. apply (lookup_copied (fun b => match lookup b (base_dict bases) with Some c => c | None => ([], [], []) end)).
+      apply (proj2 (np_unique_in _ _)). exact Hb.
+    - intros i Hi. lia.
+    - rewrite Hkeys. apply sorted_lt_nodup, np_unique_sorted.
+    - intros r Hr. left. rewrite Hkeys in Hr. rewrite np_unique_in in Hr. exact Hr. }
+  destruct (zoom_fold_inv bases res cs bs Hcs Hbs Hres Hbpos Hvalid resn pred mult Hseq (length resn) 0 copied eq_refl H0)
+    as (lv' & Efold & (IB & ID & IN & IK)).
+  rewrite Efold.
+  pose proof (resn_eq bases res Hres Hbpos resn pred mult Hseq) as Eresn.
+  assert (Hset : forall x, In x (map fst lv') <-> In x resn).
+  { intros x. split.
+    - intros Hx. destruct (IK x Hx) as [H|(j & _ & Hj & ->)].
+      + rewrite Eresn. apply (proj2 (np_unique_in _ _)), in_or_app. now left.
+      + apply nth_In. exact Hj.
+    - intros Hx. apply (In_nth _ _ 0) in Hx as (i & Hi & <-).
+      destruct (ID i Hi Hi) as (c & Hl & _). apply lookup_in in Hl. now apply (in_map fst) in Hl. }
+  split.
+  - intros lv E. injection E as <-. split; [|split; [exact IN|]].
+    + rewrite <- Eresn. apply NoDup_Permutation; [exact IN| |exact Hset].
+      rewrite Eresn. apply sorted_lt_nodup, np_unique_sorted.
+    + intros r c Hl. assert (Hr : In r resn) by (apply Hset; apply lookup_in in Hl; now apply (in_map fst) in Hl).
+      apply (In_nth _ _ 0) in Hr as (i & Hi & <-).
+      destruct (ID i Hi Hi) as (c' & Hl' & D & V). rewrite Hl in Hl'. injection Hl' as <-. auto.
+  - split; [discriminate|]. intros Hex. apply Hcomp in Hex. congruence.
+Qed.
+
+(* ================================================= preferred_sequence / the -r grammar *)
+Lemma pow2_pos i : 0 <= i -> 1 <= 2 ^ i.
+Proof. intros. assert (0 < 2 ^ i) by (apply Z.pow_pos_nonneg; lia). lia. Qed.
+Lemma pow10_pos i : 0 <= i -> 1 <= 10 ^ i.
+Proof. intros. assert (0 < 10 ^ i) by (apply Z.pow_pos_nonneg; lia). lia. Qed.
+
+(** binary progression: exactly the x * 2^i that are <= stop, ascending *)
+Lemma geom_upto_spec stop : forall fuel x, 1 <= x -> stop < x * 2 ^ Z.of_nat fuel ->
+  (forall y, In y (geom_upto fuel x 2 stop) <-> exists i, 0 <= i /\ y = x * 2 ^ i /\ y <= stop) /\
+  StronglySorted Z.lt (geom_upto fuel x 2 stop) /\ Forall (fun y => x <= y) (geom_upto fuel x 2 stop).
+Proof.
+  induction fuel as [|f IH]; intros x Hx Hf.
+  - cbn [geom_upto]. split; [|split; constructor]. intros y. split; [intros []|].
+    intros (i & Hi & -> & Hy). pose proof (pow2_pos i Hi). cbn in Hf. nia.
+  - cbn [geom_upto]. destruct (x <=? stop) eqn:E.
+    + destruct (IH (x * 2) ltac:(lia)) as (A & B & D).
+      { rewrite Nat2Z.inj_succ, Z.pow_succ_r in Hf by lia. lia. }
+      split; [|split].
+      * intros y. cbn [In]. rewrite A. split.
+        -- intros [<-|(i & Hi & -> & Hy)]; [exists 0; split; [lia|split; [cbn; lia|lia]]|].
+           exists (i + 1). rewrite Z.pow_add_r by lia. split; [lia|]. split; [cbn; lia|]. cbn in *; lia.
+        -- intros (i & Hi & -> & Hy). destruct (Z.eq_dec i 0) as [->|Hne]; [left; cbn; lia|right].
+           exists (i - 1). split; [lia|]. replace (2 ^ i) with (2 ^ (i - 1) * 2) in *.
+           2:{ replace i with ((i - 1) + 1) at 2 by lia. rewrite Z.pow_add_r by lia. cbn. lia. }
+           split; [lia|lia].
+      * constructor; [exact B|]. eapply Forall_impl; [|exact D]. intros; cbn in *; lia.
+      * constructor; [lia|]. eapply Forall_impl; [|exact D]. intros; cbn in *; lia.
+    + split; [|split; constructor]. intros y. split; [intros []|].
+      intros (i & Hi & -> & Hy). pose proof (pow2_pos i Hi). nia.
+Qed.
+
+Lemma log2_fuel stop : 0 <= stop -> stop < 2 ^ Z.of_nat (Z.to_nat (Z.log2_up (stop + 2))).
+Proof.
+  intros H. rewrite Z2Nat.id by apply Z.log2_up_nonneg.
+  pose proof (Z.log2_up_spec (stop + 2) ltac:(lia)). lia.
+Qed.
+
+Theorem preferred_binary_spec start stop : 1 <= start ->
+  (forall y, In y (preferred_sequence start stop true) <-> exists i, 0 <= i /\ y = start * 2 ^ i /\ y <= stop) /\
+  StronglySorted Z.lt (preferred_sequence start stop true).
+Proof.
+  intros Hs. unfold preferred_sequence. destruct (stop <? start) eqn:E.
+  - split; [|constructor]. intros y. split; [intros []|]. intros (i & Hi & -> & Hy). pose proof (pow2_pos i Hi). nia.
+  - destruct (geom_upto_spec stop (Z.to_nat (Z.log2_up (stop + 2)) + 1) (start * 2) ltac:(lia)) as (A & B & D).
+    { pose proof (log2_fuel stop ltac:(lia)) as H. rewrite Nat2Z.inj_add, Z.pow_add_r by lia.
+      assert (1 <= 2 ^ Z.of_nat 1) by (cbn; lia). nia. }
+    split.
+    + intros y. cbn [In]. rewrite A. split.
+      * intros [<-|(i & Hi & -> & Hy)]; [exists 0; split; [lia|split; [cbn; lia|lia]]|].
+        exists (i + 1). rewrite Z.pow_add_r by lia. split; [lia|]. split; [cbn; lia|]. cbn in *; lia.
+      * intros (i & Hi & -> & Hy). destruct (Z.eq_dec i 0) as [->|Hne]; [left; cbn; lia|right].
+        exists (i - 1). split; [lia|]. replace (2 ^ i) with (2 ^ (i - 1) * 2) in *.
+        2:{ replace i with ((i - 1) + 1) at 2 by lia. rewrite Z.pow_add_r by lia. cbn. lia. }
+        split; [lia|lia].
+    + constructor; [exact B|]. eapply Forall_impl; [|exact D]. intros; cbn in *; lia.
+Qed.
+
+(** nice progression: exactly the x * 10^j * m, m in {2,5,10}, that are <= stop, ascending *)
+Lemma nice_upto_spec stop : forall fuel x, 1 <= x -> stop < x * 10 ^ Z.of_nat fuel ->
+  (forall y, In y (nice_upto fuel x stop) <->
+     exists j m, 0 <= j /\ (m = 2 \/ m = 5 \/ m = 10) /\ y = x * 10 ^ j * m /\ y <= stop) /\
+  StronglySorted Z.lt (nice_upto fuel x stop) /\ Forall (fun y => x < y) (nice_upto fuel x stop).
+Proof.
+  induction fuel as [|f IH]; intros x Hx Hf.
+  - cbn [nice_upto]. split; [|split; constructor]. intros y. split; [intros []|].
+    intros (j & m & Hj & Hm & -> & Hy). pose proof (pow10_pos j Hj). cbn in Hf. nia.
+  - assert (Hsplit : forall y, (exists j m, 0 <= j /\ (m = 2 \/ m = 5 \/ m = 10) /\ y = x * 10 ^ j * m /\ y <= stop) <->
+             (y = x * 2 /\ y <= stop) \/ (y = x * 5 /\ y <= stop) \/ (y = x * 10 /\ y <= stop) \/
+             (exists j m, 0 <= j /\ (m = 2 \/ m = 5 \/ m = 10) /\ y = (x * 10) * 10 ^ j * m /\ y <= stop)).
+    { intros y. split.
+      - intros (j & m & Hj & Hm & -> & Hy). destruct (Z.eq_dec j 0) as [->|Hne].
+        + cbn. destruct Hm as [ -> | [ -> | -> ] ]; [left|right; left|right; right; left]; lia.
+        + right; right; right. exists (j - 1), m. split; [lia|]. split; [exact Hm|].
+          replace (10 ^ j) with (10 ^ (j - 1) * 10) in *.
+          2:{ replace j with ((j - 1) + 1) at 2 by lia. rewrite Z.pow_add_r by lia. cbn. lia. }
+          split; lia.
+      - intros [[-> Hy]|[[-> Hy]|[[-> Hy]|(j & m & Hj & Hm & -> & Hy)]]].
+        + exists 0, 2. cbn. repeat split; auto; lia.
+        + exists 0, 5. cbn. repeat split; auto; lia.
+        + exists 0, 10. cbn. repeat split; auto; lia.
+        + exists (j + 1), m. rewrite Z.pow_add_r by lia. cbn. repeat split; auto; try lia. }
+    assert (Hrec : stop < x * 10 * 10 ^ Z.of_nat f).
+    { rewrite Nat2Z.inj_succ, Z.pow_succ_r in Hf by lia. lia. }
+    destruct (IH (x * 10) ltac:(lia) Hrec) as (A & B & D).
+    assert (Hlow : forall y, (exists j m, 0 <= j /\ (m = 2 \/ m = 5 \/ m = 10) /\ y = x * 10 * 10 ^ j * m /\ y <= stop) -> x * 20 <= y /\ x * 10 <= stop).
+    { intros y (j & m & Hj & Hm & -> & Hy). pose proof (pow10_pos j Hj). split; nia. }
+    cbn [nice_upto].
+    destruct (x * 2 <=? stop) eqn:E2.
+    2:{ split; [|split; constructor]. intros y. rewrite Hsplit. split; [intros []|].
+        intros [H|[H|[H|H]]]; try lia; apply Hlow in H; lia. }
+    destruct (x * 5 <=? stop) eqn:E5.
+    2:{ split; [|split].
+        - intros y. rewrite Hsplit. cbn [In]. split; [intros [<-|[]]; left; lia|].
+          intros [H|[H|[H|H]]]; try lia; apply Hlow in H; lia.
+        - constructor; constructor.
+        - constructor; [lia|constructor]. }
+    destruct (x * 10 <=? stop) eqn:E10.
+    2:{ split; [|split].
+        - intros y. rewrite Hsplit. cbn [In]. split; [intros [<-|[<-|[]]]; [left|right; left]; lia|].
+          intros [H|[H|[H|H]]]; try lia; apply Hlow in H; lia.
+        - constructor; [constructor; constructor|]. constructor; [lia|constructor].
+        - constructor; [lia|]. constructor; [lia|constructor]. }
+    split; [|split].
+    + intros y. rewrite Hsplit. cbn [In]. rewrite A. split.
+      * intros [<-|[<-|[<-|H]]]; [left|right; left|right; right; left|right; right; right]; auto; lia.
+      * intros [H|[H|[H|H]]]; [left|right; left|right; right; left|right; right; right]; auto; lia.
+    + assert (D' : Forall (fun y => x * 10 < y) (nice_upto f (x * 10) stop)) by exact D.
+      constructor; [constructor; [constructor; [exact B|exact D']|]|].
+      * constructor; [lia|]. eapply Forall_impl; [|exact D']. intros; cbn in *; lia.
+      * constructor; [lia|]. constructor; [lia|]. eapply Forall_impl; [|exact D']. intros; cbn in *; lia.
+    + constructor; [lia|]. constructor; [lia|]. constructor; [lia|].
+      eapply Forall_impl; [|exact D]. intros; cbn in *; lia.
+Qed.
+
+Theorem preferred_nice_spec start stop : 1 <= start ->
+  (forall y, In y (preferred_sequence start stop false) <->
+     exists j m, 0 <= j /\ (m = 1 \/ m = 2 \/ m = 5) /\ y = start * 10 ^ j * m /\ y <= stop) /\
+  StronglySorted Z.lt (preferred_sequence start stop false).
+Proof.
+  intros Hs. unfold preferred_sequence. destruct (stop <? start) eqn:E.
+  - split; [|constructor]. intros y. split; [intros []|]. intros (j & m & Hj & Hm & -> & Hy). pose proof (pow10_pos j Hj). nia.
+  - destruct (nice_upto_spec stop (Z.to_nat (Z.log2_up (stop + 2)) + 1) start Hs) as (A & B & D).
+    { pose proof (log2_fuel stop ltac:(lia)) as H.
+      assert (Hle : forall n : nat, 2 ^ Z.of_nat n <= 10 ^ Z.of_nat n).
+      { intros n. apply Z.pow_le_mono_l. lia. }
+      specialize (Hle (Z.to_nat (Z.log2_up (stop + 2)))).
+      rewrite Nat2Z.inj_add, Z.pow_add_r by lia. assert (1 <= 10 ^ Z.of_nat 1) by (cbn; lia). nia. }
+    split.
+    + intros y. cbn [In]. rewrite A. split.
+      * intros [<-|(j & m & Hj & Hm & -> & Hy)].
+        -- exists 0, 1. cbn. repeat split; auto; lia.
+        -- destruct Hm as [ -> | [ -> | -> ] ].
+           ++ exists j, 2. repeat split; auto; lia.
+           ++ exists j, 5. repeat split; auto; lia.
+           ++ exists (j + 1), 1. rewrite Z.pow_add_r by lia. cbn. repeat split; auto; lia.
+      * intros (j & m & Hj & Hm & -> & Hy). destruct Hm as [ -> | [ -> | -> ] ].
+        -- destruct (Z.eq_dec j 0) as [->|Hne]; [left; cbn; lia|right].
+           exists (j - 1), 10. split; [lia|]. split; [auto|].
+           replace (10 ^ j) with (10 ^ (j - 1) * 10) in *.
+           2:{ replace j with ((j - 1) + 1) at 2 by lia. rewrite Z.pow_add_r by lia. cbn. lia. }
+           split; lia.
+        -- right. exists j, 2. repeat split; auto; lia.
+        -- right. exists j, 5. repeat split; auto; lia.
+    + constructor; [exact B|exact D].
+Qed.
+
+(** a strictly sorted list is determined by its members: with the two theorems above the progressions
+    are pinned down completely *)
+Lemma sorted_lt_ext l1 : forall l2, StronglySorted Z.lt l1 -> StronglySorted Z.lt l2 ->
+  (forall y, In y l1 <-> In y l2) -> l1 = l2.
+Proof.
+  induction l1 as [|a l1 IH]; intros l2 S1 S2 H.
+  - destruct l2 as [|b l2]; [reflexivity|]. exfalso. apply (H b). now left.
+  - destruct l2 as [|b l2]; [exfalso; apply (H a); now left|].
+    inversion S1 as [|? ? S1' A1]; inversion S2 as [|? ? S2' A2]; subst. rewrite Forall_forall in A1, A2.
+    assert (a = b) as ->.
+    { destruct (proj1 (H a) (or_introl eq_refl)) as [E|E]; [auto|].
+      destruct (proj2 (H b) (or_introl eq_refl)) as [E'|E']; [auto|].
+      specialize (A1 b E'). specialize (A2 a E). lia. }
+    f_equal. apply IH; auto. intros y. split; intros Hy.
+    + destruct (proj1 (H y) (or_intror Hy)) as [E|E]; [subst; specialize (A1 _ Hy); lia|exact E].
+    + destruct (proj2 (H y) (or_intror Hy)) as [E|E]; [subst; specialize (A2 _ Hy); lia|exact E].
+Qed.
